@@ -275,6 +275,18 @@ func (c *c20ctx) sharedLayer(fns []*ssa.Function) {
 			for _, ins := range b.Instrs {
 				switch x := ins.(type) {
 				case *ssa.Store:
+					// a map or slice of the shared API/Client value stored into other memory is an alias: whoever
+					// writes through the copy writes the shared storage (req.Header = c.Header ; req.Header.Set(…))
+					if _, isLocal := x.Addr.(*ssa.Alloc); !isLocal {
+						switch x.Val.Type().Underlying().(type) {
+						case *types.Map, *types.Slice:
+							if r, _, ok := s.rootOfValue(fn, x.Val); ok && r.class == "api" {
+								if _, isParam := x.Val.(*ssa.Parameter); !isParam {
+									flag("C20/shared-data-read-only", "shared reference stored into other memory", x.Pos(), r, "a map/slice of the shared value is aliased by another object: writes through that object reach storage every request uses")
+								}
+							}
+						}
+					}
 					if r, crossed, ok := s.rootOfValue(fn, x.Addr); ok && crossed {
 						if r.class == "api" {
 							// direct stores through the API receiver are receiver-read-only's; here: through a propagated parameter
